@@ -15,11 +15,16 @@
 // Monitors (sound under any scheduling: a hit is a genuine violation; silence proves nothing):
 //
 //	conc:<Type>:not-linearizable   conc:<Type>:own-key-result-differs   conc:<Type>:final-state-differs
-//	conc:<Type>:panic              conc:<Type>:hang
+//	conc:<Type>:panic              conc:<Type>:hang          conc:MutexBucket:atomic-methods-not-linearizable
 //
-// Only methods that the models treat as ONE atomic step are mixed; the methods declared multi-step
-// (MutexBucket.Len/Clear, SyncPrioritySlice.Appends as a batch; coq/C16/AtomicModel.v multi_step) enter the
-// linearizability mix only under -focus <Type>.<Method> (evidence runs).  -focus also biases the mix to
+// The regular small rounds mix the methods that are ONE critical section.  MutexBucket additionally gets a
+// stream of small rounds with Len and Clear mixed in (focus "MutexBucket.Len+Clear"): both work bucket by
+// bucket and are NOT linearizable — the open finding C16-mutexbucket-len-not-atomic, which these rounds
+// normally reproduce.  Attribution: the kind conc:MutexBucket:not-linearizable is given only to a history
+// that IS linearizable once the concurrent Len calls are dropped (read-only) and every concurrent Clear is
+// replaced by one atomic clear per bucket; any other non-linearizable MutexBucket history gets
+// conc:MutexBucket:atomic-methods-not-linearizable (never listed).  SyncPrioritySlice.Appends (a documented
+// sequence of atomic Appends) enters the linearizability mix only under -focus.  -focus also biases the mix to
 // that method and runs until -budget seconds are spent or a monitor fires (the failing-input search of
 // checks/c16.py when the lock skeleton of <Type>.<Method> breaks its obligation).  Not evaluated in Coq.
 package main
@@ -50,7 +55,7 @@ type Op struct {
 	D  int     `json:"d,omitempty"` // busy-wait iterations before the call
 }
 
-var keyed = map[string]bool{"Set": true, "Add": true, "Del": true, "Get": true, "GetExist": true, "Exist": true, "Delete": true, "DeleteGet": true,
+var keyed = map[string]bool{"ClearBucket": true, "Set": true, "Add": true, "Del": true, "Get": true, "GetExist": true, "Exist": true, "Delete": true, "DeleteGet": true,
 	"DeleteGetExist": true, "BGet": true, "ItemGet": true, "GetOrSet": true, "GetAndDel": true}
 var valued = map[string]bool{"Set": true, "Add": true, "GetOrSet": true}
 
@@ -260,6 +265,14 @@ func specMap(sc *Scenario, s []int64, op Op) (Res, []int64) {
 		return Res{L: cp(s)}, s
 	case "Clear":
 		return Res{}, nil
+	case "ClearBucket": // one bucket (op.K) emptied atomically: a step of MutexBucket.Clear
+		var o []int64
+		for j := 0; j+1 < len(s); j += 2 {
+			if hashFn(sc.Buckets, s[j]) != int(op.K) {
+				o = append(o, s[j], s[j+1])
+			}
+		}
+		return Res{}, o
 	}
 	panic("specMap: " + op.M)
 }
@@ -549,6 +562,7 @@ func genScenario(t *target, shape, focus string, seed uint64) *Scenario {
 	}
 	if shape == "small" {
 		mix := append([]string(nil), t.small...)
+		multi := fm == "Len+Clear" && len(t.focusOnly) > 0 // MutexBucket: the bucket-by-bucket methods mixed in
 		if fm != "" && has(t.focusOnly, fm) {
 			mix = append(mix, fm)
 		}
@@ -579,10 +593,19 @@ func genScenario(t *target, shape, focus string, seed uint64) *Scenario {
 				sc.Prefill = append(sc.Prefill, Op{M: "Set", K: int64(i) % dom, V: next()})
 			}
 		}
+		if multi {
+			sc.Buckets = r.Range(2, 3)
+		}
 		gen := func() Op {
 			m := mix[r.Intn(len(mix))]
 			if fm != "" && r.Bool() {
 				m = fm
+			}
+			if multi && r.Chance(2, 5) {
+				m = "Len"
+				if r.Chance(1, 4) {
+					m = "Clear"
+				}
 			}
 			if t.name == "SyncSlice" {
 				if sliceA && m == "Clear" {
@@ -920,6 +943,27 @@ func linearizable(t *target, sc *Scenario, h []Rec) (verdict string) {
 	return "checkers-disagree"
 }
 
+// relaxBucket: the history with MutexBucket.Len and Clear taken as what they are — Len (read-only) dropped, Clear
+// replaced by one atomic ClearBucket per bucket, all within the call's interval (in any order: weaker than the
+// code's index order, so "explained by Len/Clear" is claimed only when even that does not help the other calls).
+// Only calls of the concurrent part are relaxed; the observation after the join is quiescent and stays.
+func relaxBucket(sc *Scenario, h []Rec) (out []Rec, changed bool) {
+	for _, r := range h {
+		switch {
+		case r.G >= 0 && r.Op.M == "Len":
+			changed = true
+		case r.G >= 0 && r.Op.M == "Clear":
+			changed = true
+			for b := 0; b < sc.Buckets; b++ {
+				out = append(out, Rec{G: r.G, Op: Op{M: "ClearBucket", K: int64(b)}, Call: r.Call, Ret: r.Ret})
+			}
+		default:
+			out = append(out, r)
+		}
+	}
+	return out, changed
+}
+
 // canonical form of an order-insensitive observation (big shape)
 func canon(sc *Scenario, op Op, r Res) Res {
 	switch {
@@ -959,8 +1003,37 @@ func judge(t *target, sc *Scenario, h []Rec, hang bool) (c Case, viol []vh.Viola
 		}
 	}
 	if sc.Shape == "small" {
-		switch v := linearizable(t, sc, h); v {
+		v := linearizable(t, sc, h)
+		if v == "not-linearizable" && sc.Type == "MutexBucket" {
+			// Is it the bucket-by-bucket Len / Clear (open finding) or something else?
+			rel, changed := relaxBucket(sc, h)
+			switch {
+			case !changed:
+				v = "atomic-methods-not-linearizable"
+			default:
+				switch linearizable(t, sc, rel) {
+				case "linearizable":
+					// stays "not-linearizable": explained by Len / Clear not being one critical section
+				case "undecided":
+					v = "undecided"
+				default:
+					v = "atomic-methods-not-linearizable"
+				}
+			}
+			if v == "atomic-methods-not-linearizable" {
+				add(v, fmt.Sprintf("the %d recorded calls are not linearizable against a plain map, and they stay so with the concurrent Len calls dropped "+
+					"and every concurrent Clear taken as one atomic clear per bucket: a method that is ONE critical section does not behave atomically", len(h)))
+				return
+			}
+		}
+		switch v {
 		case "not-linearizable":
+			if sc.Type == "MutexBucket" {
+				add(v, fmt.Sprintf("no sequential order of the %d recorded calls that respects their real-time order yields the observed results "+
+					"(sequential specification: plain map); the history IS linearizable once the concurrent Len calls are dropped and every concurrent Clear "+
+					"is taken as one atomic clear per bucket: MutexBucket.Len / Clear work bucket by bucket under separate locks and are not atomic", len(h)))
+				return
+			}
 			add(v, fmt.Sprintf("no sequential order of the %d recorded calls that respects their real-time order yields the observed results "+
 				"(sequential specification: plain %s)", len(h), map[string]string{"OrderSync": "entry list with swap-delete", "SyncMap": "map",
 				"MutexBucket": "map", "SyncSlice": "slice", "SyncPrioritySlice": "multiset ordered by priority"}[sc.Type]))
@@ -1048,12 +1121,12 @@ func main() {
 			"on disjoint keys, all results and the final state compared with the serial execution; non-trivial = calls of two goroutines overlapped in the "+
 			"recorded history; not evaluated in Coq")
 	rng := vh.NewRNG(f.Seed)
-	nSmall, nBig := 1200, 120
+	nSmall, nBig, nMulti := 1200, 120, 5000
 	if f.Tier == "thorough" {
-		nSmall, nBig = 12000, 1500
+		nSmall, nBig, nMulti = 12000, 1500, 50000
 	}
 	if f.N > 0 {
-		nSmall, nBig = f.N, f.N/6
+		nSmall, nBig, nMulti = f.N, f.N/6, f.N
 	}
 	one := func(t *target, shape, fc string) bool {
 		_, seed := rng.Derive()
@@ -1102,6 +1175,11 @@ func main() {
 	for _, t := range targets {
 		for i := 0; i < nSmall; i++ {
 			one(t, "small", "")
+		}
+		if t.name == "MutexBucket" { // Len / Clear mixed in: normally reproduces the open finding C16-mutexbucket-len-not-atomic
+			for i := 0; i < nMulti; i++ {
+				one(t, "small", "MutexBucket.Len+Clear")
+			}
 		}
 		for i := 0; i < nBig; i++ {
 			one(t, "big", "")
